@@ -45,11 +45,10 @@ func (s *snapshot) Get(key []byte, cb func(value []byte) error) error {
 		return err
 	}
 
-	if err := cb(data); err != nil {
-		return err
-	}
-
-	return closer.Close()
+	// close the value also when the callback fails (as DB.Get and batch.Get do): a value left
+	// open stays pinned and makes the store's Close() fail
+	err = cb(data)
+	return errors.Join(err, closer.Close())
 }
 
 func (s *snapshot) NewIterator(prefix []byte, withUpperBound bool) (db.Iterator, error) {
